@@ -345,6 +345,24 @@ func ruleC06URLPath(c *Checker) {
 			}
 			c.check(ok, R, p.FuncName(fn), "write url.URL.Path", p.Pos(ps.Pos()), "RawPath of the same URL is adjusted alongside", "URL.Path is edited without RawPath: a package URL with escaped characters prints differently with a sub-path (…/a%2Fb.tgz//sub becomes …/a/b.tgz//sub)")
 		}
+		// what is appended to RawPath must keep the sub-path's separators: a segment
+		// escaper (url.PathEscape, url.QueryEscape) turns '/' into %2F, and the parser
+		// takes the sub-path from the raw string without decoding it.
+		for _, rs := range rawStores {
+			if len(pathStores) == 0 {
+				continue
+			}
+			bad := ""
+			for v := range p.backSlice(rs.Val, 0) {
+				if cl, ok := v.(*ssa.Call); ok {
+					o := calleeObj(cl)
+					if isFunc(o, "net/url", "PathEscape") || isFunc(o, "net/url", "QueryEscape") {
+						bad = fullName(o)
+					}
+				}
+			}
+			c.check(bad == "", R, p.FuncName(fn), "RawPath extension keeps separators", p.Pos(rs.Pos()), "the sub-path is appended verbatim or through URL.EscapedPath (which keeps '/')", "the sub-path appended to RawPath goes through "+bad+", a single-segment escaper that rewrites '/' as %2F: a nested sub-path prints as one segment and parses back to a different address")
+		}
 	}
 	c.check(n > 0, R, "-", "URL path edits", "-", fmt.Sprintf("%d site(s)", n), "no URL.Path edit found (sub-paths are no longer printed inside the URL)")
 }
@@ -724,48 +742,115 @@ func ruleC07Schemes(c *Checker) {
 
 func ruleC07Query(c *Checker) {
 	const R = "C07.query"
-	c.rule(R, "The per-type query rules are present and lead to errors: the git implementation rejects any query key other than the constant \"ref\" and more than one value; the archive implementation rejects a 'checksum' argument, accepts only the archive values tar.gz/tgz, and otherwise requires the escaped path to end in .tar.gz or .tgz.", 4)
+	c.rule(R, "The per-type query rules guard every acceptance: in the archive implementation every nil return lies past the passing edge of the 'checksum' rejection (unconditionally) and past either the archive-value test (tar.gz / tgz) or the path-suffix test (.tar.gz / .tgz); in the git implementation every nil return lies after the loop that rejects any key other than \"ref\" and repeated values. A rejecting test is an If one of whose edges leads only to error returns.", 5)
 	p := c.P
 	impls := registryImpls(p)
+	done := map[*ssa.Function]bool{}
 	for k, n := range impls {
 		fn := p.Fn(addrPkg, n.Obj().Name()+".PrepareURL")
-		if fn == nil {
+		if fn == nil || done[fn] {
 			continue
 		}
-		consts := map[string][]ssa.Instruction{}
-		eachInstr(fn, func(in ssa.Instruction) {
-			var ops [8]*ssa.Value
-			for _, op := range in.Operands(ops[:0]) {
-				if op != nil && *op != nil {
-					if s, ok := constString(*op); ok {
-						consts[s] = append(consts[s], in)
+		done[fn] = true
+		name := p.FuncName(fn)
+		// rejecting tests mentioning a constant
+		passEdges := func(consts ...string) []Edge {
+			var out []Edge
+			for _, b := range fn.Blocks {
+				ifi, ok := b.Instrs[len(b.Instrs)-1].(*ssa.If)
+				if !ok {
+					continue
+				}
+				mentions := false
+				for v := range p.backSlice(ifi.Cond, 0) {
+					if s, ok := constString(v); ok {
+						for _, k2 := range consts {
+							if s == k2 {
+								mentions = true
+							}
+						}
+					}
+				}
+				if !mentions {
+					continue
+				}
+				for i := 0; i < 2; i++ {
+					rej, _ := returnsNonNilErrorFrom(b.Succs[i])
+					if rej {
+						out = append(out, Edge{b, 1 - i})
 					}
 				}
 			}
-		})
-		need := []string{}
+			return out
+		}
+		succ := successReturns(fn)
 		switch k {
 		case "git":
-			need = []string{"ref"}
-		case "https":
-			need = []string{"checksum", "archive", "tar.gz", "tgz", ".tar.gz", ".tgz"}
-		default:
-			continue
-		}
-		for _, s := range need {
-			// each constant must be used in a comparison / lookup whose failing edge returns an error
-			used := false
-			for _, in := range consts[s] {
-				switch x := in.(type) {
-				case *ssa.BinOp:
-					if x.Op == token.EQL || x.Op == token.NEQ {
-						used = true
+			refPass := passEdges("ref")
+			c.check(len(refPass) > 0, R, name, "rejects keys other than ref", p.Pos(fn.Pos()), "a test against \"ref\" with a rejecting edge exists", "the git implementation no longer rejects query arguments other than 'ref'")
+			for i, r := range succ {
+				// every nil return is after the key loop: not inside it and dominated by its header
+				inKeyLoop := false
+				for _, e := range refPass {
+					if reaches(r.Block(), e.From) {
+						inKeyLoop = true
 					}
-				case *ssa.Lookup, *ssa.Call:
-					used = true
+				}
+				okr := !inKeyLoop
+				for _, e := range refPass {
+					h := loopHeadOf(e.From)
+					if !h.Dominates(r.Block()) {
+						okr = false
+					}
+				}
+				c.check(okr, R, name, fmt.Sprintf("nil return %d after the query-key loop", i), p.Pos(r.Pos()), "acceptance only after every key was checked", "the git implementation can accept before all query keys were checked")
+			}
+		case "http", "https":
+			cs := passEdges("checksum")
+			c.check(len(cs) > 0, R, name, "rejects checksum", p.Pos(fn.Pos()), "a rejecting test on the 'checksum' argument exists", "the archive implementation no longer rejects a 'checksum' argument")
+			arch := append(passEdges("tar.gz", "tgz"), passEdges(".tar.gz", ".tgz")...)
+			// passing edges of the suffix tests are the HasSuffix true edges
+			sufT, _ := condEdges(fn, func(v ssa.Value) bool {
+				cl, ok := v.(*ssa.Call)
+				if !ok || !isFunc(calleeObj(cl), "strings", "HasSuffix") {
+					return false
+				}
+				s2, ok := constString(cl.Call.Args[1])
+				return ok && (s2 == ".tar.gz" || s2 == ".tgz")
+			})
+			eqT, _ := condEdges(fn, func(v ssa.Value) bool {
+				bo, ok := v.(*ssa.BinOp)
+				if !ok || bo.Op != token.EQL {
+					return false
+				}
+				s2, ok := constString(bo.Y)
+				return ok && (s2 == "tar.gz" || s2 == "tgz")
+			})
+			_, neF := condEdges(fn, func(v ssa.Value) bool {
+				bo, ok := v.(*ssa.BinOp)
+				if !ok || bo.Op != token.NEQ {
+					return false
+				}
+				s2, ok := constString(bo.Y)
+				return ok && (s2 == "tar.gz" || s2 == "tgz")
+			})
+			arch = append(append(append(arch, sufT...), eqT...), neF...)
+			for i, r := range succ {
+				c.check(guarded(r.Block(), cs), R, name, fmt.Sprintf("nil return %d past the checksum rejection", i), p.Pos(r.Pos()), "acceptance only when no 'checksum' argument is present", "an archive address carrying a 'checksum' argument can be accepted on this path")
+				c.check(guarded(r.Block(), arch), R, name, fmt.Sprintf("nil return %d past an archive-format test", i), p.Pos(r.Pos()), "acceptance only with a tar.gz/tgz archive argument or a .tar.gz/.tgz path", "an archive address can be accepted without a recognised archive format")
+			}
+			// normalisation to tgz
+			norm := false
+			for _, ci := range callsIn(fn) {
+				if o := calleeObj(ci); o != nil && o.Name() == "Set" {
+					for _, a := range ci.Common().Args {
+						if s2, ok := constString(a); ok && s2 == "tgz" {
+							norm = true
+						}
+					}
 				}
 			}
-			c.check(used, R, p.FuncName(fn), fmt.Sprintf("query rule %q", s), p.Pos(fn.Pos()), "the rule's constant is tested and can lead to an error", fmt.Sprintf("the query/path rule involving %q is gone from PrepareURL", s))
+			c.check(norm, R, name, "archive value normalised to tgz", p.Pos(fn.Pos()), "qs.Set(\"archive\", \"tgz\")", "the 'archive' argument is no longer normalised to 'tgz' (two spellings of one address)")
 		}
 	}
 }
